@@ -357,6 +357,16 @@ B("add-loop-with-eq-exit-off-by-one", ["C01"],
 N("idiom-sum-ref-via-copied-sum", ["C01", "C04", "C20"],
   [("src/add.rs", "        iter.copied().fold(Self::ZERO, Self::wrapping_add)", "        iter.copied().sum()")])
 
+# ---- helper returning Option<usize> + match guard (`Some(i) if i > 0`): payload summaries and refs to fields
+N("idiom-msb-via-index-helper-and-match-guard", ["C06", "C18"],
+  [("src/bits.rs", "        let first_set_limb = self\n            .as_limbs()\n            .iter()\n            .rposition(|&limb| limb != 0)\n            .unwrap_or(0);\n        if first_set_limb == 0 {\n            (self.as_limbs().first().copied().unwrap_or(0), 0)\n        } else {",
+    "        let first_set_limb = match self.top_limb_index() {\n            Some(index) if index > 0 => index,\n            _ => return (self.as_limbs().first().copied().unwrap_or(0), 0),\n        };\n        {"),
+   ("src/bits.rs", "    pub fn most_significant_bits(&self) -> (u64, usize) {", "    const fn top_limb_index(&self) -> Option<usize> {\n        let mut index = LIMBS;\n        while index > 0 {\n            index -= 1;\n            if self.limbs[index] != 0 {\n                return Some(index);\n            }\n        }\n        None\n    }\n\n    /// Returns the most significant 64 bits of the number and the exponent.\n    #[must_use]\n    pub fn most_significant_bits(&self) -> (u64, usize) {")])
+B("msb-via-index-helper-without-guard", ["C06"],
+  [("src/bits.rs", "        let first_set_limb = self\n            .as_limbs()\n            .iter()\n            .rposition(|&limb| limb != 0)\n            .unwrap_or(0);\n        if first_set_limb == 0 {\n            (self.as_limbs().first().copied().unwrap_or(0), 0)\n        } else {",
+    "        let first_set_limb = match self.top_limb_index() {\n            Some(index) => index,\n            _ => return (self.as_limbs().first().copied().unwrap_or(0), 0),\n        };\n        {"),
+   ("src/bits.rs", "    pub fn most_significant_bits(&self) -> (u64, usize) {", "    const fn top_limb_index(&self) -> Option<usize> {\n        let mut index = LIMBS;\n        while index > 0 {\n            index -= 1;\n            if self.limbs[index] != 0 {\n                return Some(index);\n            }\n        }\n        None\n    }\n\n    /// Returns the most significant 64 bits of the number and the exponent.\n    #[must_use]\n    pub fn most_significant_bits(&self) -> (u64, usize) {")], "most_significant_bits")
+
 # ---- R-TOTAL/overflow-checks on C16 (defect F16, re-created)
 B("ovf-scale-size_hint-256-bit-formula", ["C16"],
   [("src/support/scale.rs", "            _ => self.0.byte_len() + 1,\n", "            _ => (32 - self.0.leading_zeros() / 8) + 1,\n")], "Overflow(Sub:32")
